@@ -22,7 +22,8 @@ META = {
                   "(thorough 7), group sets: quick = low byte symbolic x 3 high bytes, thorough = all 2^16.",
     "explanation": "symbolic execution of the real generators driven by the model or by a scripted symbolic "
                    "answer stream",
-    "bounds": ["device type lists of length 0..4 with symbolic strictly ascending values in 0..253",
+    "bounds": ["queried set edited and fed back (5 first answers x 3 edits x 15 later answers); read-back fault with int and object destination",
+               "device type lists of length 0..4 with symbolic strictly ascending values in 0..253",
                "adversarial answer streams of length <= 6 (thorough 7), every answer none / clean / framing "
                "error with a symbolic byte", "group membership: see level_note",
                "SetGroups: destinations short / int / group (incl. a group the request leaves) / broadcast / "
